@@ -764,6 +764,9 @@ class Executor:
 
     def ev_Subscript(self, node, st):
         obj = self.ev(node.value, st)
+        if isinstance(obj.py, type) or getattr(obj.py, "__module__", None) == "typing":
+            # a type expression such as tuple[exp.Table, str] (only ever handed to typing.cast)
+            return Val(NONE, None, py=("typealias", obj.py))
         ty = T.strip_opt(obj.ty)
         sl = node.slice
         if isinstance(sl, ast.Slice):
@@ -1102,6 +1105,10 @@ class Executor:
         # python handler (builtins / externs modelled in python)
         h = self._find_handler(py, name)
         if h is not None:
+            import types as _types
+
+            if selfobj is not None and not isinstance(selfobj, (type, _types.ModuleType)):
+                args = [self.w.const(selfobj)] + list(args)  # bound method of a real (constant) object
             return h(self, st, args, kwargs, node)
         if isinstance(py, type):
             return self.construct(st, py, args, kwargs, node)
@@ -1283,7 +1290,7 @@ class Executor:
         pre = st.fork()
         # requires
         for k, r in enumerate(c.requires):
-            ctx = SpecCtx(self, old=pre, cur=pre, names=dict(bind))
+            ctx = SpecCtx(self, old=pre, cur=st, names=dict(bind))
             g = ctx.eval_bool(r)
             self.oblige(st, g, f"pre.{tag}.{k}@{ln}", "pre", node, f"precondition of {c.name}: {r}")
             st.assume(g)
